@@ -23,7 +23,7 @@ ASSUMPTIONS = [
     "fake Device/Storage/Interface classes are the repository's test fakes (tests/annet/test_mesh/fakes.py)",
     "handlers set address families and shared options on the session only (per-peer families would legitimately differ between the two ends)",
 ]
-FLOORS = {"quick": {"topologies": 250, "executions": 3000, "mirrored_pairs": 600, "permutations_compared": 1500, "conflicts_expected": 30, "merge_law_checks": 3000, "shared_handler_constants_checked": 200, "peer_options_checked": 300, "shared_executor_runs": 150, "shared_executor_runs_with_differently_named_link_ends": 80, "linklocal_cases_with_two_neighbours_sharing_an_address": 25, "cases_with_family_only_device_handlers": 60, "family_only_handler_devices": 60, "cases_with_full_names_and_an_included_registry": 20, "indirect_sessions_with_differently_named_ends": 12, "cases_with_as_numbers_given_as_text": 40, "fabrics_with_short_names_shared_between_sites": 150, "sessions_between_sites_checked": 1500},
+FLOORS = {"quick": {"topologies": 250, "executions": 3000, "mirrored_pairs": 600, "permutations_compared": 1500, "conflicts_expected": 30, "merge_law_checks": 3000, "shared_handler_constants_checked": 200, "peer_options_checked": 300, "shared_executor_runs": 150, "shared_executor_runs_with_differently_named_link_ends": 80, "linklocal_cases_with_two_neighbours_sharing_an_address": 25, "cases_with_family_only_device_handlers": 60, "family_only_handler_devices": 60, "cases_with_full_names_and_an_included_registry": 20, "indirect_sessions_with_differently_named_ends": 12, "cases_with_as_numbers_given_as_text": 40, "fabrics_with_short_names_shared_between_sites": 150, "indirect_sessions_described_by_two_rules": 15, "sessions_between_sites_checked": 1500},
           "thorough": {"topologies": 9000, "executions": 100000, "mirrored_pairs": 20000, "permutations_compared": 50000, "conflicts_expected": 1000, "merge_law_checks": 100000, "shared_handler_constants_checked": 7000, "peer_options_checked": 10000, "shared_executor_runs": 5000, "shared_executor_runs_with_differently_named_link_ends": 2500, "linklocal_cases_with_two_neighbours_sharing_an_address": 800}}
 
 
@@ -392,6 +392,12 @@ def check_case(seed, acc, ll=False, ext=False):
         for r_ in rules:
             if r_["type"] == "indirect" and r_["iface"] in ("lo0", "none") and r_["left"].startswith("spine") and not r_.get("mesh2") and irng.random() < 0.9:
                 r_["iface"] = "lo0/lo1"
+        xrng = random.Random(seed ^ 0x22D)
+        for r_ in [r_ for r_ in rules if r_["type"] == "indirect" and not r_.get("mesh2") and r_["role"] == "base"]:
+            if xrng.random() < 0.95:
+                # the same indirect sessions described by one more rule (same addresses): another family, one more session option
+                rules.append(dict(r_, role="extra", families=[xrng.choice(["ipv6_unicast", "l2vpn_evpn"])], session=dict(r_.get("session", {}), send_community=True)))
+                acc.count("indirect_sessions_described_by_two_rules")
         erng = random.Random(seed ^ 0xE87)
         drs = [r_ for r_ in rules if r_["type"] == "direct" and r_["role"] == "base"]
         if drs and erng.random() < 0.7:
@@ -578,7 +584,7 @@ def _check_case(seed, acc, rng, topo, rules):
                     return w
     # indirect sessions whose two ends name different interfaces: each end's address sits on the interface ITS side of the handler named
     for r in [r for r in rules if r["type"] == "indirect" and r["iface"] == "lo0/lo1"]:
-        if sum(1 for r2 in rules if r2["type"] == "indirect" and r2["net"] == r["net"]) > 1:
+        if r["role"] != "base" or sum(1 for r2 in rules if r2["type"] == "indirect" and r2["role"] == "base" and r2["net"] == r["net"]) > 1:
             continue
         for A in topo["devices"]:
             ra = res0[A]
